@@ -22,7 +22,11 @@ EXTENDS Naturals, Sequences, FiniteSets, TLC
 
 Forms == <<"owned", "ref", "ref_mut">>
 \* k: "none" (no attribute), "top" (top-level types), "forms" (per-form content; all "no" = `#[into]`)
-Content == [k : {"forms"}, owned : {"no", "bare", "typed"}, ref : {"no", "bare", "typed"}, ref_mut : {"no", "bare", "typed"}]
+\* "both": the keyword twice in one attribute, bare and with a type (`ref, ref(Ty)`): each mention contributes
+Vals == {"no", "bare", "typed", "both"}
+Content == {c \in [k : {"forms"}, owned : Vals, ref : Vals, ref_mut : Vals] :
+               Cardinality({f \in {"owned", "ref", "ref_mut"} :
+                               (f = "owned" /\ c.owned = "both") \/ (f = "ref" /\ c.ref = "both") \/ (f = "ref_mut" /\ c.ref_mut = "both")}) <= 1}
 Of(a, f) == CASE f = "owned" -> a.owned [] f = "ref" -> a.ref [] f = "ref_mut" -> a.ref_mut
 Empty == [k |-> "forms", owned |-> "no", ref |-> "no", ref_mut |-> "no"]
 Top   == [k |-> "top", owned |-> "no", ref |-> "no", ref_mut |-> "no"]
@@ -35,7 +39,8 @@ None  == [k |-> "none", owned |-> "no", ref |-> "no", ref_mut |-> "no"]
 DocAtoms(a) ==
     IF a.k = "top" THEN {<<"owned", "typed">>}
     ELSE IF a = Empty THEN {<<"owned", "bare">>}
-    ELSE {<<Forms[i], Of(a, Forms[i])>> : i \in {i \in 1..3 : Of(a, Forms[i]) # "no"}}
+    ELSE {<<Forms[i], Of(a, Forms[i])>> : i \in {i \in 1..3 : Of(a, Forms[i]) \in {"bare", "typed"}}}
+         \cup UNION {{<<Forms[i], "bare">>, <<Forms[i], "typed">>} : i \in {i \in 1..3 : Of(a, Forms[i]) = "both"}}
 \* "In such cases [a field attribute], no conversion into a tuple of all fields is generated, unless an explicit
 \*  struct attribute is present."
 DocImpls(sa, fk, fa) ==
@@ -52,7 +57,7 @@ Components(n, skip) == SelectSeq([i \in 1..n |-> i], LAMBDA i : i \notin skip)
 (* a form when `consider_fields_ty || !tys.is_empty()`.                    *)
 (***************************************************************************)
 Conv(a, f) == IF a.k = "top" THEN [fields |-> FALSE, tys |-> f = "owned"]
-              ELSE [fields |-> Of(a, f) = "bare", tys |-> Of(a, f) = "typed"]
+              ELSE [fields |-> Of(a, f) \in {"bare", "both"}, tys |-> Of(a, f) \in {"typed", "both"}]
 Default(f) == [fields |-> f = "owned", tys |-> FALSE]
 ImplConvs(a) == IF a.k # "top" /\ a = Empty THEN [f \in {"owned", "ref", "ref_mut"} |-> Default(f)]     \* Either::Left(empty)
                 ELSE [f \in {"owned", "ref", "ref_mut"} |-> Conv(a, f)]
